@@ -242,6 +242,17 @@ impl Prop for C04 {
             Part { name: "literal-flag-q".into(), strategy: q, cases: tier.pick(30_000, 300_000) },
             Part { name: "xpath".into(), strategy: part(Dialect::XPath), cases: tier.pick(150_000, 3_000_000) },
             Part { name: "xsd".into(), strategy: part(Dialect::Xsd), cases: tier.pick(50_000, 1_000_000) },
+            Part {
+                name: "scaled".into(),
+                strategy: super::c01::scaled_part(&{
+                    let mut c = GenCfg::basic(&['a', 'b', 'c', '𐐀']);
+                    c.w_empty = 0;
+                    c
+                }, "ims")
+                .prop_map(|ast| Case04 { dialect: Dialect::XPath, ast, rep: "-".into(), text: None })
+                .boxed(),
+                cases: tier.pick(30_000, 400_000),
+            },
         ]
     }
     fn enumerations(&self, tier: Tier) -> Vec<(String, String, Box<dyn Iterator<Item = Case04> + Send>)> {
